@@ -374,6 +374,99 @@ class SpecOS:
         raise NotImplementedError(f"os.{name} is outside the file-system contract")
 
 
+class SpecTempfile:
+    """`tempfile` over SpecFS.  Without dir= the file lives in the SYSTEM temporary directory - a different directory
+    and, for all the code can know, a different file system than the results file."""
+    SYS = "/systmp"
+
+    def __init__(self, fs):
+        self.fs = fs
+        self.n = 0
+        self.tempdir = None
+
+    def gettempdir(self):
+        return self.SYS
+
+    def _name(self, prefix, suffix, dir):
+        self.n += 1
+        d = str(dir) if dir is not None else self.SYS
+        return d.rstrip("/") + "/" + (prefix if prefix is not None else "tmp") + f"{self.n:06d}" + (suffix or "")
+
+    def NamedTemporaryFile(self, mode="w+b", buffering=-1, encoding=None, newline=None, suffix=None, prefix=None, dir=None,
+                           delete=True, **k):
+        p = self._name(prefix, suffix, dir)
+        fs = self.fs
+        fresh = getattr(fs, "fresh_paths", ())
+        fs.fresh_paths = tuple(fresh) + (p,)            # O_EXCL: a temporary file is always a new file
+        h = Handle(fs, p, "w")
+        h.name = p
+        if delete:
+            orig_close = h.close
+
+            def close():
+                was = h.closed
+                orig_close()
+                if not was and p in fs._entries:
+                    del fs.files[p]
+                    fs.effect("unlink", p)
+            h.close = close
+            h.__exit__ = lambda *a: (close(), False)[1]
+        return h
+
+    def mkstemp(self, suffix=None, prefix=None, dir=None, text=False):
+        p = self._name(prefix, suffix, dir)
+        fs = self.fs
+        fs.fresh_paths = tuple(getattr(fs, "fresh_paths", ())) + (p,)
+        fd = SpecOS._FD(p, 0)
+        fd.handle = Handle(fs, p, "w")
+        return fd, p
+
+    def __getattr__(self, name):
+        raise NotImplementedError(f"tempfile.{name} is outside the file-system contract")
+
+
+class SpecShutil:
+    """`shutil` over SpecFS.  move(src, dst) is an atomic rename only inside one file system; the contract grants that
+    only when both names are in the same directory.  Otherwise it is what shutil does across file systems: dst is
+    opened for writing (truncated), the bytes are copied, src is removed."""
+
+    def __init__(self, fs):
+        self.fs = fs
+
+    @staticmethod
+    def _dir(p):
+        return p.rsplit("/", 1)[0] if "/" in p else "."
+
+    def _copy(self, s, d):
+        if s not in self.fs._entries:
+            raise FileNotFoundError(s)
+        content = self.fs._entries[s].content
+        h = Handle(self.fs, d, "w")
+        h.write(content if isinstance(content, Doc) else Doc(("copy-of", repr(content)), "corrupt"))
+        h.close()
+        return d
+
+    def move(self, src, dst, *a, **k):
+        s, d = str(src), str(dst)
+        if self._dir(s) == self._dir(d):
+            self.fs.point()
+            self.fs.rename(s, d)
+            self.fs.effect("replace", d, s)
+            return d
+        self._copy(s, d)
+        del self.fs.files[s]
+        self.fs.effect("unlink", s)
+        return d
+
+    def copyfile(self, src, dst, *a, **k):
+        return self._copy(str(src), str(dst))
+
+    copy = copy2 = copyfile
+
+    def __getattr__(self, name):
+        raise NotImplementedError(f"shutil.{name} is outside the file-system contract")
+
+
 class SymDict(dict):
     """The mapping stored in an existing results file: arbitrary content.  Membership of the one name that a
     save asks about is decided by an oracle (symbolic: a fork); writes are recorded."""
